@@ -51,7 +51,8 @@ func (f form) class() string {
 		return "insub"
 	case "like", "notlike", "likeesc", "glob", "notglob", "regexp", "match", "ilike":
 		return "like"
-	case "abs", "coalesce", "max2", "countstar", "count", "countdistinct", "sumfilter", "groupconcat":
+	case "abs", "coalesce", "max2", "countstar", "count", "countdistinct", "sumfilter", "groupconcat",
+		"countstarfilter", "countfilter", "countdistinctfilter", "countnoargs", "countnoargsfilter", "groupconcatfilter":
 		return "func"
 	case "castint", "casttext", "castvarchar", "castdecimal", "castdouble":
 		return "cast"
@@ -135,6 +136,13 @@ func init() {
 	add(false, "countdistinct", "count(DISTINCT $0)", n, 1)
 	add(false, "sumfilter", "sum($0) FILTER (WHERE $1)", []string{"a", "a > 5"}, 2)
 	add(false, "groupconcat", "group_concat($0, $1)", []string{"b", "'-'"}, 2)
+	// call-argument form {*, expr, DISTINCT expr, none, two} x trailing FILTER
+	add(false, "countstarfilter", "count(*) FILTER (WHERE $0)", []string{"a > 5"}, 1)
+	add(false, "countfilter", "count($0) FILTER (WHERE $1)", []string{"a", "a > 5"}, 2)
+	add(false, "countdistinctfilter", "count(DISTINCT $0) FILTER (WHERE $1)", []string{"a", "a > 5"}, 2)
+	add(false, "countnoargs", "count()", n, 0)
+	add(false, "countnoargsfilter", "count() FILTER (WHERE $0)", []string{"a > 5"}, 1)
+	add(false, "groupconcatfilter", "group_concat($0, $1) FILTER (WHERE $2)", []string{"b", "'-'", "a > 5"}, 3)
 	add(true, "castint", "CAST($0 AS INTEGER)", n, 1)
 	add(false, "casttext", "CAST($0 AS TEXT)", n, 1)
 	add(false, "castvarchar", "CAST($0 AS VARCHAR(10))", n, 1)
